@@ -347,6 +347,16 @@ def run_case(case):
                 plans.append(('persistent', {'pfaults': [pf]},
                               'persistent %s %s under %s' % (
                                   mode, errno.errorcode[err], cdir)))
+        # ... and every LOOK-UP under files/ or under the whole candidate
+        # fails (a directory that cannot be searched, a stale handle): no
+        # name can be examined, which is not "every name is taken"
+        for err in (E.EACCES, E.EIO):
+            for sub in ('/files', ''):
+                plans.append(('persistent', {'pfaults': [
+                    {'prefix': cdir + sub, 'errno': err,
+                     'ops': ['stat', 'lstat', 'access']}]},
+                    'persistent look-ups %s under %s%s' % (
+                        errno.errorcode[err], cdir, sub)))
     # (c) pairs of one-shot faults on mutating events
     muts = [e for e in events if e['c'] == 'M']
     pairs = []
